@@ -104,7 +104,7 @@ fn honest_profile() -> Profile {
 pub fn sc_interop(idx: u64, seed: u64, _t: bool) -> RunOut {
     let plan = Plan {
         scenario: "interop",
-        opts: CfgOpts { late_psk: 0, noncanonical_rs: 40, ..CfgOpts::default() },
+        opts: CfgOpts { late_psk: 0, noncanonical_rs: 40, same_statics: 40, ..CfgOpts::default() },
         profile: Profile { wild_buffers: true, ..honest_profile() },
         mode: "plain",
         warm_parallel: false,
@@ -115,7 +115,7 @@ pub fn sc_interop(idx: u64, seed: u64, _t: bool) -> RunOut {
 pub fn sc_honest(idx: u64, seed: u64, _t: bool) -> RunOut {
     let plan = Plan {
         scenario: "honest",
-        opts: CfgOpts { snow_keygen: 500, ..CfgOpts::default() },
+        opts: CfgOpts { snow_keygen: 500, same_statics: 40, ..CfgOpts::default() },
         profile: honest_profile(),
         mode: "plain",
         warm_parallel: false,
@@ -126,7 +126,7 @@ pub fn sc_honest(idx: u64, seed: u64, _t: bool) -> RunOut {
 pub fn sc_tamper_hs(idx: u64, seed: u64, _t: bool) -> RunOut {
     let plan = Plan {
         scenario: "tamper-hs",
-        opts: CfgOpts { sessions: 2, parallel_same_statics: idx % 3 != 0, ..CfgOpts::default() },
+        opts: CfgOpts { sessions: 2, parallel_same_statics: idx % 3 != 0, surplus_rs: 150, same_statics: 30, evil_pub: 40, ..CfgOpts::default() },
         profile: Profile {
             hs_tamper: 600,
             max_hs_faults: 2,
@@ -322,6 +322,10 @@ pub fn apply_mismatch(cfg: &mut RunCfg, rng: &mut Rng) {
         choices.push("psk-long-via-set_psk");
     }
     choices.push("big-prologue-tail");
+    if proto.is_psk() {
+        choices.push("psk-replace-one-side");
+        choices.push("psk-spelling");
+    }
     if proto.psk_mods.len() == 1 {
         choices.push("psk-index");
     }
@@ -340,6 +344,7 @@ pub fn apply_mismatch(cfg: &mut RunCfg, rng: &mut Rng) {
     }
     let n = if rng.chance(1, 8) { 2 } else { 1 };
     let mut label = vec![];
+    let mut forced_mismatch = false;
     for _ in 0..n {
         let c = *rng.pick(&choices);
         let side = rng.usize_below(2);
@@ -371,6 +376,23 @@ pub fn apply_mismatch(cfg: &mut RunCfg, rng: &mut Rng) {
                 let tail = rng.bytes(extra);
                 cfg.nodes[side].psks[k].key.extend_from_slice(&tail);
                 cfg.nodes[side].psks[k].at_boot = false;
+            },
+            "psk-replace-one-side" => {
+                // the configurations are equal; one side replaces its PSK through set_psk before
+                // the handshake (the driver issues the call, see Driver::handshake)
+                label.pop();
+                label.push(if side == 0 { "psk-replace-one-side-a" } else { "psk-replace-one-side-b" });
+                forced_mismatch = true;
+            },
+            "psk-spelling" => {
+                // the same modifier written with a leading zero: another protocol name
+                let proto = Proto::parse(&cfg.nodes[side].name).unwrap();
+                let parts: Vec<String> = cfg.nodes[side].name.split('_').map(|s| s.to_string()).collect();
+                let mods: Vec<String> = parts[1][proto.base.len()..].split('+').enumerate().map(|(k, m)| if k == 0 { m.replacen("psk", "psk0", 1) } else { m.to_string() }).collect();
+                let newname = format!("Noise_{}{}_{}_{}_{}", proto.base, mods.join("+"), parts[2], parts[3], parts[4]);
+                if Proto::parse(&newname).is_ok() && newname.parse::<snow::params::NoiseParams>().is_ok() {
+                    cfg.nodes[side].name = newname;
+                }
             },
             "psk-order" => {
                 // the same modifiers spelled in another order: a different protocol name
@@ -524,7 +546,7 @@ pub fn apply_mismatch(cfg: &mut RunCfg, rng: &mut Rng) {
         || a.psks.iter().map(|p| (&p.idx, &p.key)).ne(b.psks.iter().map(|p| (&p.idx, &p.key)))
         || rs_differs(a, b)
         || rs_differs(b, a);
-    cfg.mismatch = differ;
+    cfg.mismatch = differ || forced_mismatch;
     cfg.stratum = format!("{}/mismatch-{}", cfg.stratum, label.join("+"));
 }
 
@@ -770,7 +792,7 @@ pub fn sc_stateless(idx: u64, seed: u64, _t: bool) -> RunOut {
 pub fn sc_leak(idx: u64, seed: u64, _t: bool) -> RunOut {
     let plan = Plan {
         scenario: "leak",
-        opts: CfgOpts::default(),
+        opts: CfgOpts { surplus_rs: 100, same_statics: 60, ..CfgOpts::default() },
         profile: Profile {
             hs_fail_read: 600,
             max_hs_faults: 6,
@@ -1430,6 +1452,112 @@ pub fn sc_stateless_enum(idx: u64, seed: u64, _t: bool) -> RunOut {
     })
 }
 
+/// Long histories (C05, C09, C02): one session per cipher x backend x receiver mode in which the
+/// receiver first rejects more than 2^20 distinct garbage deliveries, must then still accept the
+/// genuine next message, and the peers then exchange more than 2^16 messages in order (the counter
+/// crosses 255/256 and 65535/65536 by counting, not by placement). 12 runs.
+pub fn sc_soak(idx: u64, seed: u64, thorough: bool) -> RunOut {
+    let i = idx % 12;
+    let cipher = ["ChaChaPoly", "AESGCM", "XChaChaPoly"][(i % 3) as usize];
+    let backend = [Backend::Default, Backend::RingFirst][((i / 3) % 2) as usize];
+    let stateless_rcv = (i / 6) % 2 == 1;
+    let opts = CfgOpts { force_name: Some(format!("Noise_XX_25519_{cipher}_BLAKE2s")), force_backend: Some(backend), ..CfgOpts::default() };
+    run_custom(idx, seed, "soak", &opts, |d| {
+        // handshake: before each genuine delivery the reader rejects a few hundred forged
+        // messages (garbage and altered copies of the genuine one), and the writer makes a few
+        // hundred failing attempts
+        for m in 0..3u32 {
+            let (wr, rd) = if m % 2 == 0 { (0u8, 1u8) } else { (1, 0) };
+            for k in 0..(if thorough { 600 } else { 120 }) {
+                d.step(Op::Write { node: wr, plen: 9, pseed: 5, buf: Buf::Abs(k % 7), nonce: NonceSel::Auto });
+            }
+            d.step(Op::Write { node: wr, plen: 9, pseed: 5, buf: Buf::Ample, nonce: NonceSel::Auto });
+            // (XX message 1 is `e` plus a cleartext payload: any 32+ bytes are a valid message, so
+            // forged input starts at message 2)
+            if m > 0 {
+                d.step(Op::GarbageBurst { node: rd, count: if thorough { 3000 } else { 300 }, len: 120, seed: 11 + m });
+            }
+            for k in 0..(if m == 0 { 0 } else if thorough { 600u32 } else { 120 }) {
+                d.step(Op::Read { node: rd, src: Src::Pick { k: 0, consume: false }, mutation: Mutation::Flip { field: (k % 5) as u8, pos: k, bit: (k % 8) as u8 }, out: Buf::Ample, nonce: NonceSel::Auto });
+            }
+            d.step(Op::Read { node: rd, src: Src::Next, mutation: Mutation::None, out: Buf::Ample, nonce: NonceSel::Auto });
+        }
+        d.step(Op::Convert { node: 0, stateless: false });
+        d.step(Op::Convert { node: 1, stateless: stateless_rcv });
+        d.step(Op::TrafficBurst { node: 0, count: 3, plen: 10 });
+        d.step(Op::GarbageBurst { node: 1, count: (1 << 20) + 64, len: 33, seed: 7 });
+        d.step(Op::TrafficBurst { node: 0, count: if thorough { 140_000 } else { 66_000 }, plen: 4 });
+        if !stateless_rcv {
+            d.step(Op::TrafficBurst { node: 1, count: 300, plen: 0 });
+        }
+        d.step(Op::Query { node: 0 });
+        d.step(Op::Query { node: 1 });
+    })
+}
+
+const SOAK_HS_NAMES: [&str; 10] = [
+    "Noise_XX_25519_ChaChaPoly_BLAKE2s",
+    "Noise_IK_25519_AESGCM_SHA256",
+    "Noise_IKpsk2_25519_ChaChaPoly_BLAKE2s",
+    "Noise_XXpsk3_P256_ChaChaPoly_SHA256",
+    "Noise_KK_25519_XChaChaPoly_SHA512",
+    "Noise_NNpsk0_25519_AESGCM_BLAKE2b",
+    "Noise_X_25519_ChaChaPoly_SHA256",
+    "Noise_XK1_P256_AESGCM_SHA512",
+    "Noise_NX_25519_ChaChaPoly_BLAKE2s",
+    "Noise_K1X1_25519_ChaChaPoly_SHA256",
+];
+
+/// Long handshake histories (C07, C02, C05): for ten patterns x two backends, each handshake
+/// message is preceded by many failing write attempts (undersized buffer) and - where the message
+/// has an authenticated part - by several hundred rejected deliveries (garbage, bit flips of the
+/// genuine message, truncations, undersized payload buffers); the genuine message must then still
+/// be accepted, the session must complete, and a transport exchange per direction follows.
+/// 20 runs: the complete set.
+pub fn sc_soak_hs(idx: u64, seed: u64, thorough: bool) -> RunOut {
+    let i = idx % 20;
+    let name = SOAK_HS_NAMES[(i % 10) as usize];
+    let backend = [Backend::Default, Backend::RingFirst][((i / 10) % 2) as usize];
+    let opts = CfgOpts { force_name: Some(name.to_string()), force_backend: Some(backend), ..CfgOpts::default() };
+    let proto = Proto::parse(name).unwrap();
+    let nmsg = proto.msgs.len() as u32;
+    let oneway = proto.base.len() == 1;
+    let reps: u32 = if thorough { 700 } else { 90 };
+    run_custom(idx, seed, "soak-hs", &opts, |d| {
+        for m in 0..nmsg {
+            let (wr, rd) = if m % 2 == 0 { (0u8, 1u8) } else { (1, 0) };
+            for k in 0..reps {
+                d.step(Op::Write { node: wr, plen: 9, pseed: 5 + m, buf: Buf::Abs(k % 7), nonce: NonceSel::Auto });
+            }
+            d.step(Op::Write { node: wr, plen: 9, pseed: 5 + m, buf: Buf::Ample, nonce: NonceSel::Auto });
+            let authenticated = d.w.inbox[rd as usize].back().map(|&h| d.w.history[h].fields.iter().any(|f| matches!(f.kind, crate::refnoise::FieldKind::PayloadTag | crate::refnoise::FieldKind::STag))).unwrap_or(false);
+            if authenticated {
+                let len = d.w.inbox[rd as usize].back().map(|&h| d.w.history[h].bytes.len()).unwrap_or(64) as u32;
+                d.step(Op::GarbageBurst { node: rd, count: reps, len: len as u16, seed: 11 + m });
+                for k in 0..reps {
+                    let mutation = match k % 3 {
+                        0 => Mutation::Flip { field: (k % 5) as u8, pos: k, bit: (k % 8) as u8 },
+                        1 => Mutation::TruncLast { n: 1 + (k % 16) as u8 },
+                        _ => Mutation::None,
+                    };
+                    // every third: the genuine bytes into a payload buffer that is too small
+                    let out = if k % 3 == 2 { Buf::Abs(k % 9) } else { Buf::Ample };
+                    d.step(Op::Read { node: rd, src: Src::Pick { k: 0, consume: false }, mutation, out, nonce: NonceSel::Auto });
+                }
+            }
+            d.step(Op::Read { node: rd, src: Src::Next, mutation: Mutation::None, out: Buf::Ample, nonce: NonceSel::Auto });
+        }
+        d.step(Op::Convert { node: 0, stateless: false });
+        d.step(Op::Convert { node: 1, stateless: i % 4 == 3 });
+        d.step(Op::TrafficBurst { node: 0, count: 3, plen: 10 });
+        if !oneway && i % 4 != 3 {
+            d.step(Op::TrafficBurst { node: 1, count: 3, plen: 10 });
+        }
+        d.step(Op::Query { node: 0 });
+        d.step(Op::Query { node: 1 });
+    })
+}
+
 const CALL_ENUM_NAMES: [&str; 6] = [
     "Noise_N_25519_ChaChaPoly_SHA256",
     "Noise_NN_25519_AESGCM_SHA256",
@@ -1552,6 +1680,8 @@ pub fn grid_space(name: &str, thorough: bool) -> Option<u64> {
         "boundary-sweep" => 512,
         "auth-enum" => 768,
         "stateless-enum" => 360,
+        "soak" => 12,
+        "soak-hs" => 20,
         _ => return None,
     })
 }
@@ -1582,14 +1712,14 @@ pub fn check_table() -> Vec<Check> {
     const RULE: &str = "runs are generated by a seeded driver (stratified over 38 patterns x psk class x DH x cipher x hash by run index, everything else PRNG); a run is non-trivial if at least one injected fault fired (for fault-free scenarios: it completed a handshake), and distinct by hash of (configuration stratum, sequence of (phase, call, result) events)";
     vec![
         Check { id: "C01", level: "exploration", rule: RULE, enumerations: vec![], scens: vec![scen!("interop", sc_interop, 24_000, 600_000, 0x101), scen!("honest", sc_honest, 8_000, 200_000, 0x102), scen!("fail-retry", sc_fail_retry_ledger, 6_000, 100_000, 0x103), scen!("framing-boundary", sc_framing_boundary, 3_040, 10_640, 0x104)] },
-        Check { id: "C02", level: "exploration", rule: RULE, enumerations: vec![], scens: vec![scen!("honest", sc_honest, 24_000, 600_000, 0x201), scen!("interop", sc_interop, 8_000, 200_000, 0x202), scen!("fail-retry", sc_fail_retry_ledger, 6_000, 100_000, 0x203), scen!("framing-boundary", sc_framing_boundary, 3_040, 10_640, 0x204)] },
+        Check { id: "C02", level: "exploration", rule: RULE, enumerations: vec![], scens: vec![scen!("honest", sc_honest, 24_000, 600_000, 0x201), scen!("interop", sc_interop, 8_000, 200_000, 0x202), scen!("fail-retry", sc_fail_retry_ledger, 6_000, 100_000, 0x203), scen!("framing-boundary", sc_framing_boundary, 3_040, 10_640, 0x204), scen!("soak-hs", sc_soak_hs, 20, 20, 0x205)] },
         Check { id: "C03", level: "exploration", rule: RULE, enumerations: vec![], scens: vec![scen!("tamper-hs", sc_tamper_hs, 30_000, 800_000, 0x301), scen!("chaos", sc_chaos, 4_000, 100_000, 0x302)] },
         Check { id: "C04", level: "exploration", rule: RULE, enumerations: vec![], scens: vec![scen!("transport-auth", sc_transport_auth, 20_000, 500_000, 0x401), scen!("stateless", sc_stateless, 6_000, 100_000, 0x402), scen!("framing-boundary", sc_framing_boundary, 3_040, 10_640, 0x403), scen!("auth-enum", sc_auth_enum, 768, 768, 0x404)] },
-        Check { id: "C05", level: "exploration", rule: RULE, enumerations: vec![], scens: vec![scen!("transport-sched", sc_transport_sched, 24_000, 600_000, 0x501), scen!("nonce", sc_nonce, 4_000, 100_000, 0x502), scen!("sched-enum", sc_sched_enum, 7_500, 7_500, 0x503), scen!("nonce-enum", sc_nonce_enum, 5_184, 15_552, 0x504)] },
+        Check { id: "C05", level: "exploration", rule: RULE, enumerations: vec![], scens: vec![scen!("transport-sched", sc_transport_sched, 24_000, 600_000, 0x501), scen!("nonce", sc_nonce, 4_000, 100_000, 0x502), scen!("sched-enum", sc_sched_enum, 7_500, 7_500, 0x503), scen!("nonce-enum", sc_nonce_enum, 5_184, 15_552, 0x504), scen!("soak", sc_soak, 12, 12, 0x505)] },
         Check { id: "C06", level: "exploration", rule: RULE, enumerations: vec!["real-rng"], scens: vec![scen!("fail-retry-ledger", sc_fail_retry_ledger, 24_000, 600_000, 0x601), scen!("chaos", sc_chaos, 6_000, 100_000, 0x602), scen!("nonce", sc_nonce, 6_000, 100_000, 0x603), scen!("fail-retry-enum", sc_fail_retry_enum, 7_680, 30_720, 0x604)] },
-        Check { id: "C07", level: "exploration", rule: RULE, enumerations: vec![], scens: vec![scen!("fail-retry-control", sc_fail_retry_control, 20_000, 500_000, 0x701), scen!("transport-sched", sc_transport_sched, 4_000, 100_000, 0x702), scen!("fail-retry-enum", sc_fail_retry_enum, 7_680, 30_720, 0x703)] },
+        Check { id: "C07", level: "exploration", rule: RULE, enumerations: vec![], scens: vec![scen!("fail-retry-control", sc_fail_retry_control, 20_000, 500_000, 0x701), scen!("transport-sched", sc_transport_sched, 4_000, 100_000, 0x702), scen!("fail-retry-enum", sc_fail_retry_enum, 7_680, 30_720, 0x703), scen!("soak-hs", sc_soak_hs, 20, 20, 0x704)] },
         Check { id: "C08", level: "exploration", rule: RULE, enumerations: vec![], scens: vec![scen!("mismatch", sc_mismatch, 24_000, 600_000, 0x801), scen!("mismatch-cross", sc_mismatch_cross, 8_000, 200_000, 0x802)] },
-        Check { id: "C09", level: "exploration", rule: RULE, enumerations: vec![], scens: vec![scen!("nonce", sc_nonce, 24_000, 600_000, 0x901), scen!("stateless", sc_stateless, 4_000, 100_000, 0x902), scen!("nonce-enum", sc_nonce_enum, 15_552, 15_552, 0x903)] },
+        Check { id: "C09", level: "exploration", rule: RULE, enumerations: vec![], scens: vec![scen!("nonce", sc_nonce, 24_000, 600_000, 0x901), scen!("stateless", sc_stateless, 4_000, 100_000, 0x902), scen!("nonce-enum", sc_nonce_enum, 15_552, 15_552, 0x903), scen!("soak", sc_soak, 12, 12, 0x904)] },
         Check { id: "C10", level: "exploration", rule: RULE, enumerations: vec!["names"], scens: vec![scen!("chaos", sc_chaos, 16_000, 500_000, 0xA01), scen!("chaos-keys", sc_chaos_keys, 8_000, 200_000, 0xA02), scen!("framing", sc_framing, 6_000, 100_000, 0xA03), scen!("statemachine", sc_statemachine, 4_000, 100_000, 0xA04), scen!("boundary-sweep", sc_boundary_sweep, 1_536, 6_144, 0xA05)] },
         Check { id: "C11", level: "exploration", rule: RULE, enumerations: vec![], scens: vec![scen!("statemachine", sc_statemachine, 30_000, 800_000, 0xB01), scen!("call-enum", sc_call_enum, 7_776, 279_936, 0xB02)] },
         Check { id: "C12", level: "fault_enumeration", rule: "boot half: every (pattern, role, subset of {local static, remote static} supplied, psk modifier index 0..9 / none / fallback, resolver lacking each primitive) is booted once - complete enumeration; a boot is non-trivial if it is not the all-keys-supplied no-modifier default; run-time half: seeded sessions with PSKs withheld at boot", enumerations: vec!["boot-matrix"], scens: vec![scen!("boot-runtime", sc_boot_runtime, 12_000, 300_000, 0xC01)] },
